@@ -507,6 +507,53 @@ type runner struct {
 	c    *Case
 	g    *genState
 	pats map[string]bool
+	// the last queried atom and its measurement: the next query is sometimes the same key and text under a different
+	// operator (= 'web' then =~ /web/, =~ then !~, ...), which is what result caches keyed by the filter must tell apart
+	last    *Expr
+	lastMst string
+}
+
+func isWordText(v string) bool {
+	if v == "" {
+		return false
+	}
+	for _, c := range v {
+		if !(c >= 'a' && c <= 'z' || c >= 'A' && c <= 'Z' || c >= '0' && c <= '9') {
+			return false
+		}
+	}
+	return true
+}
+
+func relatedAtom(a *Expr, r *gen.Rand) *Expr {
+	b := *a
+	switch a.O {
+	case "eq":
+		b.O = "neq"
+		if isWordText(a.V) && r.Bool() && !perlMode {
+			b.O = "re"
+		}
+	case "neq":
+		b.O = "eq"
+		if isWordText(a.V) && r.Bool() && !perlMode {
+			b.O = "nre"
+		}
+	case "re":
+		b.O = "nre"
+		if isWordText(a.V) && r.Bool() {
+			b.O = "eq"
+		}
+	case "nre":
+		b.O = "re"
+		if isWordText(a.V) && r.Bool() {
+			b.O = "neq"
+		}
+	case "in":
+		b.O = "notin"
+	case "notin":
+		b.O = "in"
+	}
+	return &b
 }
 
 func (rn *runner) doInsert(mst string, tags [][2]string) {
@@ -916,10 +963,21 @@ func genCase(r *gen.Rand, dir string, i int) *Case {
 			}
 			mst := gen.Pick(r, ms)
 			var x *Expr
-			if !r.Chance(1, 12) {
+			if rn.last != nil && r.Chance(1, 4) {
+				mst = rn.lastMst
+				x = relatedAtom(rn.last, r)
+				if r.Chance(1, 3) { // under an AND, so that the multi-filter path (cost order, pruning) sees it too
+					x = &Expr{T: "and", L: x, R: g.genAtom(mst)}
+				}
+			} else if !r.Chance(1, 12) {
 				x = g.genExpr(mst, r.Intn(4))
 			}
 			rn.doQuery(mst, x)
+			var as []*Expr
+			atomsOf(x, func(a *Expr) { as = append(as, a) })
+			if len(as) > 0 {
+				rn.last, rn.lastMst = as[r.Intn(len(as))], mst
+			}
 		default:
 			if dirty {
 				rn.e.b.Flush()
